@@ -112,6 +112,7 @@ func (f *fakeTr) NegotiationParams() transport.NegotiationParams         { retur
 func (f *fakeTr) Name() transport.Name                                   { return "fake" }
 
 type wres struct {
+	issue   int // global issue counter at the moment Write was called
 	payload string
 	err     error
 	done    bool
@@ -137,6 +138,7 @@ type world struct {
 	finalDone bool
 	clock    int
 	exhausted bool
+	issued   int
 }
 
 func (w *world) dial(cfg transport.DialConfig) (transport.Transport, error) {
@@ -190,7 +192,8 @@ func (w *world) main() {
 		vsched.Go("h:writer", func() {
 			defer wg.Done()
 			for i := 0; i < 2; i++ {
-				r := &wres{payload: fmt.Sprintf("w%d-%d", t, i), start: len(w.global)}
+				w.issued++
+				r := &wres{payload: fmt.Sprintf("w%d-%d", t, i), start: len(w.global), issue: w.issued}
 				w.writes = append(w.writes, r)
 				r.err = tr.Write([]byte(r.payload))
 				r.end = len(w.global)
@@ -340,6 +343,20 @@ func run(sc vlib.Scenario, cfg vsched.Config) (*vsched.Result, vlib.Verdict) {
 			sameWriter := a.payload[:2] == b.payload[:2] && a.payload < b.payload
 			if (sameWriter || a.end <= b.start) && pos[a.payload] > pos[b.payload] {
 				v.Fail("C18.order", fmt.Sprintf("reordered/same-writer=%v/dev=%v", sameWriter, dev), "Write(%s) completed before Write(%s) was issued, but the connections received them in the order %v", a.payload, b.payload, w.global)
+			}
+		}
+	}
+	// without schedule deviations the order in which Write was called is the order of the requests in the
+	// transport's queue: accepted writes must reach the connections in exactly that order (a retry keeps its place)
+	if !dev {
+		for i, a := range w.writes {
+			for j, b := range w.writes {
+				if i == j || !a.done || !b.done || a.err != nil || b.err != nil || count[a.payload] != 1 || count[b.payload] != 1 {
+					continue
+				}
+				if a.issue < b.issue && pos[a.payload] > pos[b.payload] {
+					v.Fail("C18.order", "issue-order/dev=false", "Write(%s) was issued before Write(%s) but the connections received them in the order %v", a.payload, b.payload, w.global)
+				}
 			}
 		}
 	}
